@@ -488,3 +488,33 @@ Lemma PC_roundtrip_inc d x :
   bind (bind (to_cumulative d x) mk_triangle) (fun c => bind (to_incremental d c) mk_triangle)
   = Ok x.
 Proof. intros H; std d H. apply canon_roundtrip_inc. Qed.
+
+(* ------------------------------------------------------------------ grouping by Python == (Model/BasisPy.v) *)
+From Bermuda Require Import Model.BasisPy Proofs.EqP.
+
+Lemma set_meta_id c : set_meta (cmeta c) c = c.
+Proof. destruct c; reflexivity. Qed.
+
+Lemma rep_meta_separated t c : meta_separated t -> In c t -> rep_meta t c = cmeta c.
+Proof.
+  intros Hm Hc. unfold rep_meta. destruct (find (same_row_py c) t) as [c'|] eqn:F; [|reflexivity].
+  apply find_some in F as [Hin E]. unfold same_row_py in E. rewrite !andb_true_iff in E.
+  destruct E as [_ E]. apply EqP.meta_pyeq_key in E. now apply Hm.
+Qed.
+
+(* on inputs whose ==-metadata are identical, grouping by == and by structure coincide *)
+Lemma py_normalise_separated t : meta_separated t -> py_normalise t = t.
+Proof.
+  intros Hm. unfold py_normalise. rewrite <- (map_id t) at 2. apply map_ext_in.
+  intros c Hc. rewrite rep_meta_separated by auto. apply set_meta_id.
+Qed.
+Lemma to_incremental_py_separated d t : meta_separated t -> to_incremental_py d t = to_incremental d t.
+Proof.
+  intros Hm. unfold to_incremental_py, to_incremental. rewrite py_normalise_separated by auto.
+  destruct (is_incremental t); reflexivity.
+Qed.
+Lemma to_cumulative_py_separated d t : meta_separated t -> to_cumulative_py d t = to_cumulative d t.
+Proof.
+  intros Hm. unfold to_cumulative_py, to_cumulative. rewrite py_normalise_separated by auto.
+  destruct (negb (is_incremental t)); reflexivity.
+Qed.
